@@ -60,22 +60,32 @@ Proof.
 Qed.
 
 (* ------------------------------------------------------------------ *)
-(* parse work of nested call statements *)
-Lemma parse_work_ge_pow : forall n, CALL_PREFIX_PARSES ^ Z.of_nat n <= parse_work n /\ 1 <= parse_work n.
+(* parse work *)
+Lemma work_k1 : forall n, work 1 n = Z.of_nat n + 1.
+Proof. induction n; [reflexivity|]. cbn [work]. rewrite IHn. lia. Qed.
+Lemma work_ge_pow : forall k n, 1 <= k -> k ^ Z.of_nat n <= work k n /\ 1 <= work k n.
 Proof.
-  assert (P : 1 <= CALL_PREFIX_PARSES) by (vm_compute; discriminate).
-  induction n.
+  intros k n P. induction n.
   - simpl. lia.
-  - destruct IHn as [A B]. rewrite Nat2Z.inj_succ, Z.pow_succ_r by lia. cbn [parse_work]. nia.
+  - destruct IHn as [A B]. rewrite Nat2Z.inj_succ, Z.pow_succ_r by lia. cbn [work]. nia.
 Qed.
-(* full-strength expectation: the work is linear in the depth ... false for the grammar as it is *)
-Definition parse_work_linear : Prop := forall n, parse_work n <= 2 * Z.of_nat n + 1.
-Lemma parse_work_linear_refuted : ~ parse_work_linear.
-Proof. intro F. specialize (F 3%nat). vm_compute in F. apply F. reflexivity. Qed.
-Lemma parse_work_doubles : forall n, 2 ^ Z.of_nat n <= parse_work n.
+(* call statements: linear since /repo 0a3ab95 *)
+Lemma parse_work_call_linear : work_linear parse_work_call.
 Proof.
-  intros n. assert (E : CALL_PREFIX_PARSES = 2) by reflexivity.
-  pose proof (parse_work_ge_pow n) as [A _]. rewrite E in A. exact A.
+  intros n. unfold parse_work_call. replace CALL_PREFIX_PARSES with 1 by reflexivity. rewrite work_k1. lia.
+Qed.
+(* the two shapes that still double *)
+Lemma parse_work_macro_refuted : ~ work_linear parse_work_macro.
+Proof. intro F. specialize (F 3%nat). vm_compute in F. apply F. reflexivity. Qed.
+Lemma parse_work_macro_doubles : forall n, 2 ^ Z.of_nat n <= parse_work_macro n.
+Proof.
+  intros n. unfold parse_work_macro. replace MACRO_PREFIX_PARSES with 2 by reflexivity. apply work_ge_pow. lia.
+Qed.
+Lemma parse_work_assign_callidx_refuted : ~ work_linear parse_work_assign_callidx.
+Proof. intro F. specialize (F 3%nat). vm_compute in F. apply F. reflexivity. Qed.
+Lemma parse_work_assign_callidx_doubles : forall n, 2 ^ Z.of_nat n <= parse_work_assign_callidx n.
+Proof.
+  intros n. unfold parse_work_assign_callidx. replace ASSIGN_CALLIDX_PARSES with 2 by reflexivity. apply work_ge_pow. lia.
 Qed.
 
 (* ------------------------------------------------------------------ *)
